@@ -284,6 +284,19 @@ func (c *codec) decRef(r *protocol.BlockRef) aRef {
 func (c *codec) decSig(h primitives.BlockHeight, content []byte, s *protocol.SenderSignature) aSig {
 	return aSig{memberTok(s.MemberId()), c.kr.verifyConsensus(h, content, s.MemberId(), s.Signature())}
 }
+// canonicalRef: the header bytes are exactly what the builder produces for the header's field values. The bytes a
+// member signs for PREPREPARE / PREPARE / COMMIT must be canonical: prepared proofs and block proofs carry one
+// rebuilt reference for all signers.
+func canonicalRef(r *protocol.BlockRef) bool {
+	b := (&protocol.BlockRefBuilder{MessageType: r.MessageType(), InstanceId: r.InstanceId(), BlockHeight: r.BlockHeight(), View: r.View(), BlockHash: r.BlockHash()}).Build()
+	return bytes.Equal(b.Raw(), r.Raw())
+}
+func (c *codec) decHdrSig(r *protocol.BlockRef, s *protocol.SenderSignature) aSig {
+	x := c.decSig(r.BlockHeight(), r.Raw(), s)
+	x.Ok = x.Ok && canonicalRef(r)
+	return x
+}
+
 func (c *codec) decProof(p *protocol.PreparedProof) *aProof {
 	if p == nil || len(p.Raw()) == 0 {
 		return nil
@@ -305,15 +318,15 @@ func (c *codec) decode(raw *interfaces.ConsensusRawMessage) *aMsg {
 	switch m := cm.(type) {
 	case *interfaces.PreprepareMessage:
 		h := m.Content().SignedHeader()
-		return &aMsg{Kind: "PP", Ref: c.decRef(h), Snd: c.decSig(h.BlockHeight(), h.Raw(), m.Content().Sender()), Block: absBlock(m.Block())}
+		return &aMsg{Kind: "PP", Ref: c.decRef(h), Snd: c.decHdrSig(h, m.Content().Sender()), Block: absBlock(m.Block())}
 	case *interfaces.PrepareMessage:
 		h := m.Content().SignedHeader()
-		return &aMsg{Kind: "P", Ref: c.decRef(h), Snd: c.decSig(h.BlockHeight(), h.Raw(), m.Content().Sender())}
+		return &aMsg{Kind: "P", Ref: c.decRef(h), Snd: c.decHdrSig(h, m.Content().Sender())}
 	case *interfaces.CommitMessage:
 		h := m.Content().SignedHeader()
 		snd := m.Content().Sender()
 		shareOk := bytes.Equal(c.kr.signSeed(snd.MemberId(), h.BlockHeight(), c.seedBytesFor(uint64(h.BlockHeight()))), m.Content().Share())
-		return &aMsg{Kind: "C", Ref: c.decRef(h), Snd: c.decSig(h.BlockHeight(), h.Raw(), snd), ShareOk: shareOk}
+		return &aMsg{Kind: "C", Ref: c.decRef(h), Snd: c.decHdrSig(h, snd), ShareOk: shareOk}
 	case *interfaces.ViewChangeMessage:
 		v := c.decVote(m.Content())
 		return &aMsg{Kind: "VC", Vote: &v, Block: absBlock(m.Block())}
@@ -327,7 +340,7 @@ func (c *codec) decode(raw *interfaces.ConsensusRawMessage) *aMsg {
 		}
 		pp := m.Content().Message()
 		res.Ref = c.decRef(pp.SignedHeader())
-		res.PPSnd = c.decSig(pp.SignedHeader().BlockHeight(), pp.SignedHeader().Raw(), pp.Sender())
+		res.PPSnd = c.decHdrSig(pp.SignedHeader(), pp.Sender())
 		return res
 	}
 	return nil
@@ -422,6 +435,24 @@ func (c *codec) encode(m *aMsg) *interfaces.ConsensusRawMessage {
 				Message: &protocol.PreprepareContentBuilder{SignedHeader: r, Sender: c.encSig(m.PPSnd, m.Ref.Height, r.Build().Raw())}}}
 	}
 	return &interfaces.ConsensusRawMessage{Content: content.Build().Raw(), Block: blk}
+}
+
+// encodeNonCanonical: a PREPARE or COMMIT whose signed header carries trailing bytes; the sender's signature is valid
+// over exactly those bytes (only a member controlling its own key can make one)
+func (c *codec) encodeNonCanonical(m *aMsg) *interfaces.ConsensusRawMessage {
+	r := c.encRef(m.Ref)
+	raw := append(append([]byte{}, r.Build().Raw()...), 0, 0, 0, 0)
+	id := idBytes(m.Snd.Id)
+	snd := &protocol.SenderSignatureBuilder{MemberId: id, Signature: c.kr.signConsensus(id, primitives.BlockHeight(m.Ref.Height), raw)}
+	hdr := protocol.BlockRefBuilderFromRaw(raw)
+	var content *protocol.LeanhelixContentBuilder
+	if m.Kind == "P" {
+		content = &protocol.LeanhelixContentBuilder{Message: protocol.LEANHELIX_CONTENT_MESSAGE_PREPARE_MESSAGE, PrepareMessage: &protocol.PrepareContentBuilder{SignedHeader: hdr, Sender: snd}}
+	} else {
+		share := c.kr.signSeed(id, primitives.BlockHeight(m.Ref.Height), c.seedBytesFor(m.Ref.Height))
+		content = &protocol.LeanhelixContentBuilder{Message: protocol.LEANHELIX_CONTENT_MESSAGE_COMMIT_MESSAGE, CommitMessage: &protocol.CommitContentBuilder{SignedHeader: hdr, Sender: snd, Share: share}}
+	}
+	return &interfaces.ConsensusRawMessage{Content: content.Build().Raw()}
 }
 
 func joinCoq(xs []string) string { return strings.Join(xs, "; ") }
